@@ -2,7 +2,8 @@
     Proved here: the splitting core for every non-empty literal delimiter (self-overlapping
     ones included).  The full statement (trim, -p, -g, the output loop) is the executable
     model itself, tied to the code by the correspondence check; see DESIGN.md §3 C01. *)
-From TucModel Require Import Base.Bytes Base.ListX Model.Scan Spec.Fields Proofs.ScanSplit.
+From TucModel Require Import Base.Bytes Base.ListX Model.Bounds Model.BoundsParse Model.Scan Model.Opt
+     Model.CutBytes Model.CutStr Spec.Fields Proofs.C06 Proofs.ScanSplit Proofs.Plain.
 
 (** the byte ranges pushed by fill_with_fields_locations cut a non-empty record into
     pieces ps with  p1 ++ d ++ p2 ++ ... ++ pk = record  where every delimiter occurrence used
@@ -23,6 +24,29 @@ Theorem C01_split_is_leftmost_nonoverlapping :
   forall d line : bytes, d <> [] -> is_split d line (split d line).
 Proof. exact split_is_split. Qed.
 
+(** the whole record under plain options (one-byte delimiter; any bounds list incl. negative,
+    open, repeated, reordered, format text, fallbacks; -j; -r R of any length): for each
+    bound, in the order written, the record's fields from the bound's first to its last,
+    joined by the (replacement) delimiter, the (replacement) delimiter after every bound but
+    the last only under -j/-r, then the EOL *)
+Theorem C01_plain_record_is_exactly_the_requested_fields :
+  forall (o : opt) (d : byte) (line : bytes),
+    plain_opts o d -> o_trim o = None -> o_only_delimited o = false ->
+    line <> [] -> Forall item_nz (items (o_bounds o)) ->
+    cut_str o line
+    = Some (match spec_items (split_on d line) (o_fallback o) (o_join o) (rep_of o d) (items (o_bounds o)) with
+            | Some x => ROk (x ++ [o_eol o])
+            | None => RErr
+            end).
+Proof. exact general_plain_record. Qed.
+
+(** the slice from the start of a bound's first field to the end of its last field is those
+    fields joined by the delimiter; replacing the delimiter rewrites exactly the separators *)
+Theorem C01_replacement_rewrites_exactly_the_separators :
+  forall (d : byte) (rep : bytes) (fs : list bytes), fs <> [] -> Forall (dfree d) fs ->
+    replace_matches (intercalate [d] fs) (lit_matches [d] (intercalate [d] fs)) rep = intercalate rep fs.
+Proof. exact replace_joined. Qed.
+
 (** non-vacuity: '--' in '---' (self-overlapping): fields "" and "-" *)
 Example C01_self_overlapping :
   pieces [45;45;45]%N (fields_of_matches (lit_matches [45;45]%N [45;45;45]%N) [45;45;45]%N)
@@ -32,3 +56,5 @@ Proof. reflexivity. Qed.
 Print Assumptions C01_fields_locations_are_fields.
 Print Assumptions C01_offsets_equal_values.
 Print Assumptions C01_split_is_leftmost_nonoverlapping.
+Print Assumptions C01_plain_record_is_exactly_the_requested_fields.
+Print Assumptions C01_replacement_rewrites_exactly_the_separators.
